@@ -268,6 +268,7 @@ type PoolProg struct {
 	DEPct    int    `json:"deadlinePct"` // share of calls that end with a client-side deadline error (0 = one third)
 	Seed     uint64 `json:"seed"`
 	Pert     int    `json:"perturbation"`
+	Deaths   int    `json:"deaths,omitempty"`   // how often the callback goroutine reports SHUTDOWN for every connection of the pool (the pool empties; a resolver update re-creates it)
 	Siblings int    `json:"siblings,omitempty"` // other balancers (own ClientConn, other locators) built, configured and closed while the workload runs
 	Failure  string `json:"failure,omitempty"`
 }
@@ -314,7 +315,7 @@ func RunPool(p *PoolProg) (violation string, st Stats) {
 	if min == 0 {
 		min = 1
 	}
-	cc := &ccc{pending: map[int]int{}, removed: map[*csc]int{}, newConns: make(chan *csc, 256), max: max, minLEmax: min <= max}
+	cc := &ccc{pending: map[int]int{}, removed: map[*csc]int{}, newConns: make(chan *csc, 256), max: max, minLEmax: min <= max && p.Deaths == 0} // the size counter of the fake does not follow shutdowns
 	b := bb.Build(cc, balancer.BuildOptions{})
 	addrA := []resolver.Address{{Addr: "A"}}
 	addrB := []resolver.Address{{Addr: "B"}, {Addr: "B2"}}
@@ -391,7 +392,8 @@ func RunPool(p *PoolProg) (violation string, st Stats) {
 	go func() { // the serialized balancer callbacks
 		defer cbDone.Done()
 		r := p.Seed
-		flaps, resolves := p.Flaps, p.Resolves
+		flaps, resolves, deaths := p.Flaps, p.Resolves, p.Deaths
+		dead := map[*csc]bool{}
 		for {
 			select {
 			case <-stop:
@@ -406,12 +408,36 @@ func RunPool(p *PoolProg) (violation string, st Stats) {
 			var sc *csc
 			if n > 0 {
 				sc = cc.all[int(r>>8)%n]
-				if cc.removed[sc] > 0 {
+				if cc.removed[sc] > 0 || dead[sc] {
 					sc = nil
 				}
 			}
 			cc.mu.Unlock()
 			switch {
+			case deaths > 0 && r%8 == 3:
+				// every connection of the pool reports SHUTDOWN: picks on pickers published earlier meet an empty pool
+				deaths--
+				cc.mu.Lock()
+				var live []*csc
+				for _, x := range cc.all {
+					if cc.removed[x] == 0 && !dead[x] {
+						live = append(live, x)
+					}
+				}
+				cc.mu.Unlock()
+				for _, x := range live {
+					dead[x] = true
+					report(x, connectivity.Shutdown)
+				}
+				if r>>28%2 == 0 {
+					time.Sleep(time.Duration(20+r>>32%300) * time.Microsecond)
+				} else {
+					runtime.Gosched()
+				}
+				inCallback.Store(1)
+				b.UpdateClientConnState(balancer.ClientConnState{ResolverState: resolver.State{Addresses: append([]resolver.Address(nil), addrA...)}})
+				inCallback.Store(0)
+				lastAddrs = addrKey(addrA)
 			case flaps > 0 && sc != nil && !sc.refresh && r%4 == 0:
 				flaps--
 				report(sc, []connectivity.State{connectivity.TransientFailure, connectivity.Idle, connectivity.Connecting}[r>>20%3])
@@ -557,6 +583,11 @@ func RunPool(p *PoolProg) (violation string, st Stats) {
 		return v.(string), st
 	}
 	pertLevel.Store(0)
+	if p.Deaths > 0 {
+		// the end-state rules below assume a pool that never lost a channel; this program is about the accesses (race
+		// detector), panics and progress only
+		return "", st
+	}
 	// C20: once everything is quiescent every connection that belongs to the pool uses the latest resolved list
 	for {
 		select {
